@@ -151,6 +151,15 @@ func runRoute(t *testing.T, c spec.Case, e Em) {
 		connsMu.Lock()
 		ks := append([]kept(nil), conns...)
 		connsMu.Unlock()
+		if len(ks) > 24 {
+			// long sequences: the 12 most recent connections plus 12 seeded earlier ones
+			rr := rand.New(rand.NewSource(p.Seed + int64(idx)))
+			sel := append([]kept(nil), ks[len(ks)-12:]...)
+			for i := 0; i < 12; i++ {
+				sel = append(sel, ks[rr.Intn(len(ks)-12)])
+			}
+			ks = sel
+		}
 		for _, k := range ks {
 			msg, err := vp.PingConn(k.conn, 30*time.Second)
 			if err != nil {
